@@ -34,6 +34,9 @@ def accept_polarity(body, cond):
     """+1 if `cond` is the accept test (estimate <= tolerance), -1 if it is its negation form, None otherwise.
     The estimate must be a local defined from a `.norm()`, the bound must be self.tolerance."""
     c = peel(cond)
+    if c.get("k") == "Un" and c.get("op") == "Not":
+        p_ = accept_polarity(body, c["e"])          # `!(estimate <= tolerance)`: the reject form
+        return None if p_ is None else -p_
     if c.get("k") != "Bin" or c["op"] not in ("Le", "Lt", "Ge", "Gt"):
         return None
     l, r = peel(c["l"]), peel(c["r"])
@@ -73,8 +76,15 @@ def pending_guard(body, node):
     g = cfg.guards_of(body["body"], node)
     for l in cfg.conj_lits(g):
         c = peel(l[1])
-        if l[2] and c.get("k") == "Bin" and c["op"] == "Eq" and place(c["l"]) == "self.yield_memory":
-            return True
+        if l[2] and c.get("k") == "Bin" and c["op"] == "Eq":
+            lhs = peel(c["l"])
+            if place(lhs) == "self.yield_memory":
+                return True
+            # `let pending = self.yield_memory; … if pending == O + 1`: the value the sentinel had on entry
+            if lhs.get("k") == "Local":
+                d = local_let(body, lhs["id"])
+                if d is not None and place(peel(d)) == "self.yield_memory":
+                    return True
     return False
 
 
@@ -95,7 +105,7 @@ def check_accept_guard(F, run, sname):
             run.check(rollback, "R2.1", dp, "commit:" + inst, F.loc(b, n),
                       "`%s` changes the solution without being on the true edge of the accept test `estimate <= tolerance` "
                       "(and is not the roll-back of a rejected start-up)" % pp(n)[:70], sample="%s: roll-back write `%s`" % (dp, pp(n)[:50]))
-    run.floor("R2.1", dp, "writes to state/time", n_w, {"RungeKutta": 2, "Adams": 2, "BDF": 2}[sname], F.loc(b))
+    run.floor("R2.1", dp, "writes to state/time", n_w, 1, F.loc(b))
     # calls of the unchecked RK4 helper
     if sname != "RungeKutta":
         calls = [n for n in walk(b["body"], into_closures=False) if n.get("k") == "MCall" and n["name"] == "runge_kutta"]
@@ -195,6 +205,11 @@ def current_point_tuple(b, n):
     if len(defs) != 1 or not use:
         return n
     init = peel(order[defs[0]]["init"])
+    if init.get("k") == "Local" and init.get("id") != n.get("id"):
+        # `let point = current;` — follow the chain of immutable copies (nothing may write time/state on the way: checked below for the last link)
+        inner = current_point_tuple(b, init)
+        if inner.get("k") == "Tup":
+            init = inner
     if init.get("k") != "Tup":
         return n
     for x in order[defs[0]:use[0]]:
@@ -217,11 +232,15 @@ def check_bdf_estimate(F, run):
     # error local: norm of (higher_step - lower_step), both results of secant on the two residuals
     acc = None
     for n in walk(b["body"], into_closures=False):
-        if n.get("k") == "If" and accept_polarity(b, n["c"]) == 1:
+        if n.get("k") == "If" and accept_polarity(b, n["c"]) in (1, -1):
             acc = n
             break
     if not run.check(acc is not None, "R2.3-estimate", "BDFSolver::step", "accept-test", F.loc(b), "no accept test found"):
         return
+    cmp_ = peel(acc["c"])
+    while cmp_.get("k") == "Un" and cmp_.get("op") == "Not":
+        cmp_ = peel(cmp_["e"])
+    acc = dict(acc, c=cmp_)
     est = peel(acc["c"]["l"]) if accept_polarity(b, acc["c"]) else None
     it = nalg.NInterp(F, b, {"O": 7})
     solves = {}
